@@ -13,7 +13,7 @@ META = dict(
     property="C25",
     level="exploration",
     technique="grammar-generated Range headers + complete small scope, served by static.File over Site/HTTPChannel with an owned cooperator, compared with an RFC 9110 §14 reference; multipart bodies split by an independent MIME parser",
-    level_text="Every case is one GET/HEAD for a generated file (size 0..64 KiB+1) with a generated Range value; status, Content-Range, Content-Length, body (and every multipart part) are compared with a reference written from RFC 9110 §14.1-14.4/§15.3.7/§15.5.17, any 5xx or logged error is a violation, and a plain follow-up request on the same connection must still be answered. A case may be a short history: the same Site (in mode putchild the same static.File object, as installed with putChild) serves further requests after the file was replaced by content of another size; every response is judged against the content the file has when the request arrives. Small scope (sizes 0..4, all single specs and all pairs of valid specs over positions 0..4) is enumerated completely; everything else is sampled.",
+    level_text="Every case is one GET/HEAD for a generated file (size 0..64 KiB+1) with a generated Range value; status, Content-Range, Content-Length, body (and every multipart part) are compared with a reference written from RFC 9110 §14.1-14.4/§15.3.7/§15.5.17, any 5xx or logged error is a violation, and a plain follow-up request on the same connection must still be answered. A case may be a short history: the same Site (in mode putchild the same static.File object, as installed with putChild) serves further requests after the file was replaced by content of another size; every response is judged against the content the file has when the request arrives. Some cases serve through the documented openForReading()/getFileSize() hooks a logical file that is a window of a longer file on disk (hidden header/trailer), so that the logical and the on-disk size differ. Small scope (sizes 0..4, all single specs and all pairs of valid specs over positions 0..4) is enumerated completely; everything else is sampled.",
     level_note="Reference parser/oracle trusted. Non-strict spellings (unit case, white space other than SP/HT, '+1', '1_0', negative numbers) are accepted either as malformed (200) or by their Python-int reading; an empty range set and a satisfiable suffix on an empty file accept 200 or 416. HEAD accepts 200-with-full-length or the GET-equivalent status. StaticProducer.bufferSize is lowered (256..4096) in some cases so that the multi-read paths run with small files; File.openForReading returns a wrapper that refuses read(-1) like read(-2) and enforces a read-call budget, so that an endless producer loop becomes a logged failure instead of hanging the check. If-Range/conditional requests, several Range header lines and HTTP/1.0 are not generated.",
     design_ref="§5 C25",
     rule="case = (size, fill, method, Range bytes or None, bufsize [, mode dir|putchild, then=[further requests, each after replacing the file by other content of another size]]). Range values come from a grammar over positions relative to the file size (0,1,2,size-2..size+1,2*size,huge), spec kinds (a-b, a-, -n, reversed, junk), numeral decorations, unit/separator variants and raw garbage. non-trivial = header has >= 2 specs, or a suffix >= size, or size 0 (with a Range header); distinct by (size, method, Range bytes, bufsize).",
@@ -269,11 +269,19 @@ class _GuardedReader:
     * read(n) with n < 0 raises the ValueError io gives for n < -1 also for n == -1
       (which would mean 'everything' and sends MultipleRangeStaticProducer into an endless loop), and
     * a generous budget of read() calls turns any other endless producer loop into a logged failure.
-    Budgets are counts, never times."""
+    Budgets are counts, never times.
 
-    def __init__(self, f, budget):
+    It also is the "decrypt on the fly" kind of file object the openForReading()/getFileSize() hooks exist for:
+    the served (logical) file is the window [base, base + length) of the file on disk, so that the logical size
+    can differ from the on-disk size (hidden header and/or trailer)."""
+
+    def __init__(self, f, budget, base=0, length=None):
         self._f = f
         self._budget = budget
+        self._base = base
+        self._length = length
+        if base:
+            f.seek(base)
 
     def read(self, n=-1):
         if n is None or n < 0:
@@ -281,13 +289,22 @@ class _GuardedReader:
         self._budget -= 1
         if self._budget < 0:
             raise RuntimeError("C25 harness: read budget exhausted, the producer does not terminate")
+        if self._length is not None:
+            n = max(0, min(n, self._length - self.tell()))
         return self._f.read(n)
 
-    def seek(self, *a):
-        return self._f.seek(*a)
+    def seek(self, pos, whence=0):
+        if whence == 1:
+            pos += self.tell()
+        elif whence == 2:
+            pos += self._length if self._length is not None else self._f.seek(0, 2) - self._base
+        if pos < 0:
+            raise OSError(22, "Invalid argument")
+        self._f.seek(self._base + pos)
+        return pos
 
     def tell(self):
-        return self._f.tell()
+        return self._f.tell() - self._base
 
     def close(self):
         return self._f.close()
@@ -301,13 +318,21 @@ def _guarded_file_class():
     if "c" not in _CLS:
         class GuardedFile(static.File):
             readBudget = 1000
+            hide = (0, 0)          # bytes of the on-disk file before / after the logical file
 
             def openForReading(self):
-                return _GuardedReader(static.File.openForReading(self), self.readBudget)
+                if self.hide == (0, 0):
+                    return _GuardedReader(static.File.openForReading(self), self.readBudget)
+                return _GuardedReader(static.File.openForReading(self), self.readBudget,
+                                      self.hide[0], self.getFileSize())
+
+            def getFileSize(self):
+                return static.File.getFileSize(self) - self.hide[0] - self.hide[1]
 
             def createSimilarFile(self, path):
                 f = static.File.createSimilarFile(self, path)
                 f.readBudget = self.readBudget
+                f.hide = self.hide
                 return f
         _CLS["c"] = GuardedFile
     return _CLS["c"]
@@ -339,12 +364,12 @@ def _workdir():
             del _ROOT[pid]
 
 
-def _file_for(case, content):
+def _file_for(case, content, hide=(0, 0)):
     ent = _ROOT[os.getpid()]
-    key = (case["size"], case["fill"])
+    key = (case["size"], case["fill"], tuple(hide))
     if ent[1] != key:
         with open(os.path.join(ent[0], "f.bin"), "wb") as f:
-            f.write(content)
+            f.write(b"#" * hide[0] + content + b"%" * hide[1])
         ent[1] = key
     return ent[0]
 
@@ -373,6 +398,8 @@ def serve(case):
             root.putChild(b"f.bin", fileres)
         else:                                            # directory resource: a fresh child File per request
             fileres = root = _guarded_file_class()(d)
+        hide = tuple(case.get("hide", (0, 0)))
+        fileres.hide = hide
         site = server.Site(root, timeout=None, reactor=task.Clock())
         ch = site.buildProtocol(None)
         tr = StringTransport()
@@ -381,7 +408,7 @@ def serve(case):
         ok = True
         for step in steps_of(case):
             content = make_content(step["size"], step["fill"])
-            _file_for(step, content)
+            _file_for(step, content, hide)
             size = len(content)
             rng = step["range"]
             # every spec may read the whole file once, in pieces of bufsize (plus short reads around separators)
@@ -519,6 +546,8 @@ def run_case(ctx, case):
         raise AssertionError("C25 harness: a step was skipped although the one before it passed")
     mode = case.get("mode", "dir")
     ctx.count("mode=" + mode)
+    if tuple(case.get("hide", (0, 0))) != (0, 0):
+        ctx.count("hooked File: logical size (getFileSize/openForReading) differs from the on-disk size")
     for a, b in zip(steps_of(case), steps_of(case)[1:]):
         kind = "grew" if b["size"] > a["size"] else "shrank" if b["size"] < a["size"] else "same size"
         ctx.count(f"history ({'same File object' if mode == 'putchild' else 'fresh child File'}): file {kind} between requests")
@@ -535,7 +564,7 @@ def judge(ctx, case, idx, prev, step, content, first, errors, quiet, second):
         sig = obs if obs.startswith("crash:") or "/crash:" in obs else f"{cls}/{obs}"
         hist = "" if idx == 0 else f" [request {idx + 1} of a {case.get('mode', 'dir')}-mode history; before: {prev!r}]"
         ctx.violation(after + sig, case,
-                      f"size={size} {method} Range={rng!r} bufsize={case['bufsize']}{hist}: {detail}; acceptable={alts!r}; "
+                      f"size={size} {method} Range={rng!r} bufsize={case['bufsize']} hidden on disk={tuple(case.get('hide', (0, 0)))}{hist}: {detail}; acceptable={alts!r}; "
                       f"response head={first[:300]!r}")
 
     try:
@@ -678,6 +707,10 @@ def _enum_size(ctx, size):
         for a in atoms:
             for m in ("GET", "HEAD"):
                 yield dict(size=size, fill=size, method=m, range=b"bytes=" + a, bufsize=65536)
+        for a in atoms:            # File subclass whose logical file is shorter than the file on disk
+            yield dict(size=size, fill=size, method="GET", range=b"bytes=" + a, bufsize=65536, hide=[2, 0])
+            yield dict(size=size, fill=size, method="GET", range=b"bytes=" + a + b",0-0", bufsize=65536, hide=[0, 3],
+                       mode="putchild")
         valid = [a for a in atoms if strict_parse(b"bytes=" + a)]     # reversed specs only as singles
         for a, b in itertools.product(valid, valid):
             yield dict(size=size, fill=size, method="GET", range=b"bytes=" + a + b"," + b, bufsize=65536)
@@ -775,6 +808,8 @@ def _enum_history(ctx, _arg=None):
 def _cases(draw):
     case = draw(_one_request())
     case["mode"] = draw(st.sampled_from(["dir", "dir", "putchild"]))
+    if draw(st.integers(0, 4)) == 0:
+        case["hide"] = [draw(st.sampled_from([0, 1, 7, 300])), draw(st.sampled_from([0, 0, 1, 5, 70000]))]
     if draw(st.integers(0, 2)) == 0:
         then, size = [], case["size"]
         for _ in range(draw(st.integers(1, 2))):
